@@ -21,6 +21,7 @@ V = z3.DeclareSort('V')
 NONE_V = z3.Const('NONE_V', V)
 PYEQ = z3.Function('pyeq', V, V, z3.BoolSort())
 VTYPE = z3.Function('vtype', V, z3.IntSort())
+TRUTHY = z3.Function('truthy', V, z3.BoolSort())
 VINT = z3.Function('VInt', z3.IntSort(), V)
 SUCC = z3.Function('succ', Node, Node, z3.BoolSort())
 INNODE = z3.Function('in_graph', Node, z3.BoolSort())
@@ -32,7 +33,13 @@ COMPUTED = z3.Function('computed', Node, z3.BoolSort())
 FSEM = z3.Function('F', Node, z3.ArraySort(Node, V), V)
 STR_TAG = z3.IntVal(1)
 
-HEAP_FIELDS = {'value': V}
+HEAP_FIELDS = {'value': V, 'formula': V}      # formula: NONE_V = the cell has no formula (a constant / frozen cell)
+ISRANGE = z3.Function('is_range_node', Node, z3.BoolSort())
+
+
+def declare_heap_set(name):
+    """a set of nodes kept by the code (a local / closure variable holding addresses) as one more heap field"""
+    HEAP_FIELDS.setdefault('set:' + name, z3.BoolSort())
 
 
 def fresh_heap(ex, tag):
@@ -59,7 +66,9 @@ class VKind:
 
     @staticmethod
     def truth(interp, v):
-        raise Unsupported('truth value of an opaque cell value')
+        # bool(value): an uninterpreted predicate, false for None (0, FALSE, "" are falsy values that are not None)
+        interp.ex.add_axiom(z3.Not(TRUTHY(NONE_V)))
+        return interp.ex.branch(TRUTHY(v.t))
 
     @staticmethod
     def is_none(interp, v):
@@ -89,6 +98,69 @@ class VKind:
         if isinstance(t, Builtin) and t.name in ('tuple', 'list', 'dict', 'set'):
             return False
         raise Unsupported(f'isinstance of an opaque cell value with {t!r}', node)
+
+
+class FKind(VKind):
+    """the formula field: an ExcelFormula object (truthy) or None"""
+
+    @staticmethod
+    def truth(interp, v):
+        return interp.ex.branch(v.t != NONE_V)
+
+
+class SAddrKey:
+    """the address text of a node (cell.address.address): a key of cell_map and of the address sets"""
+
+    def __init__(self, node):
+        self.node = node
+
+    def contains(self, interp, item):
+        # ':' in address  <=>  the node is a range
+        if item == ':':
+            return mk_bool(ISRANGE(self.node))
+        raise Unsupported('substring test on an address key')
+
+    def __repr__(self):
+        return f'<address of {self.node}>'
+
+
+class SAddrObj:
+    """an AddressRange / AddressCell known only as the address of a node"""
+
+    def __init__(self, node):
+        self.node = node
+
+    def hm_getattr(self, interp, name, node):
+        if name == 'address':
+            return SAddrKey(self.node)
+        if name == 'is_range':
+            return mk_bool(ISRANGE(self.node))
+        raise Unsupported(f'address.{name} of an abstract node', node)
+
+
+class SNodeSet:
+    """a set of address keys held in a local / closure variable, stored as heap field 'set:<name>'"""
+
+    def __init__(self, name):
+        self.name = name
+        self.field = 'set:' + name
+
+    def term(self, interp):
+        return heap_of(interp.ex)[self.field]
+
+    def contains(self, interp, item):
+        return mk_bool(z3.Select(self.term(interp), _node(item)))
+
+    def hm_getattr(self, interp, name, node):
+        from .interp import Builtin
+        if name == 'add':
+            def add(i, args, kwargs, n):
+                ex = i.ex
+                h = dict(heap_of(ex))
+                h[self.field] = z3.Store(h[self.field], _node(args[0]), True)
+                ex.heap = h
+            return Builtin('set.add', add)
+        raise Unsupported(f'set method {name} on a node set', node)
 
 
 def to_v(interp, x):
@@ -124,12 +196,19 @@ class HeapFields:
         self.plain = dict(plain)
 
     def __contains__(self, name):
-        return name in HEAP_FIELDS or name in self.plain
+        return name in HEAP_FIELDS or name in self.plain or name in ('address', 'needed_addresses')
 
     def __getitem__(self, name):
         if name in HEAP_FIELDS:
             h = heap_of(self.interp.ex)
-            return opaque(z3.simplify(z3.Select(h[name], self.node)))
+            t = z3.simplify(z3.Select(h[name], self.node))
+            return sym.SOpaque(t, FKind) if name == 'formula' else opaque(t)
+        if name == 'address' and name not in self.plain:
+            return SAddrObj(self.node)
+        if name == 'needed_addresses' and name not in self.plain:
+            # the addresses the node's formula (or the range) needs: its read-precedents
+            d = self.node
+            return SAbstractSet(lambda p, _d=d: READS(p, _d), 'needed_addresses', element=lambda interp, n: SAddrObj(n))
         return self.plain[name]
 
     def __setitem__(self, name, value):
@@ -160,6 +239,10 @@ class SCellMap:
     """self.cell_map"""
 
     def hm_index(self, interp, idx, node):
+        if isinstance(idx, SAddrKey):
+            interp.world.trusted.add('A-MAP: cell_map holds the node of every address that a node of the graph needs '
+                                     '(_gen_graph built the precedents of every output)')
+            return heap_cell(interp, idx.node)
         t = sym.str_term(idx)
         if not interp.ex.branch(INMAP(t)):
             interp.raise_exc('KeyError', 'address not in cell_map', node)
@@ -172,9 +255,10 @@ class SCellMap:
 class SAbstractSet:
     """an iterable whose members are characterised by a predicate over Node"""
 
-    def __init__(self, member, label):
+    def __init__(self, member, label, element=None):
         self.member = member        # callable(node_term) -> z3 Bool
         self.label = label
+        self.element = element or (lambda interp, n: heap_cell(interp, n))    # what the loop variable is bound to
 
 
 class SGraph:
@@ -194,6 +278,30 @@ class SGraph:
 
     def contains(self, interp, item):
         return mk_bool(INNODE(item.node))
+
+
+def heap_evaluate(interp, args, kwargs, node):
+    """self.evaluate(address) as seen by graph surgery: it may compute and cache values of nodes that have none, never
+    changes a cached value, a formula or an address set, and the evaluated node has a value afterwards (a formula
+    never evaluates to None: eval_func maps blank to 0 - C09 blank_is_zero)"""
+    interp.world.trusted.add('A-EVALUATE-CACHES: evaluate(address) only fills in values of un-cached nodes and leaves the '
+                             'evaluated formula cell with a value that is not None (bounded for C01/C05; the not-None '
+                             'part is proved for eval_func in C09)')
+    target = args[0]
+    if isinstance(target, SAddrKey):
+        n = target.node
+    else:
+        n = CELLMAP(sym.str_term(target))
+    ex = interp.ex
+    h = dict(heap_of(ex))
+    old = h['value']
+    new = z3.Array(ex.fresh_name('value@evaluate'), Node, V)
+    m = z3.Const(ex.fresh_name('ev'), Node)
+    ex.assume(z3.ForAll([m], z3.Implies(z3.Select(old, m) != NONE_V, z3.Select(new, m) == z3.Select(old, m))))
+    ex.assume(z3.Select(new, n) != NONE_V)
+    h['value'] = new
+    ex.heap = h
+    return opaque(z3.Select(new, n))
 
 
 class Dummy:
@@ -322,6 +430,31 @@ def sx_old_holds_f(interp, args, kwargs, node):
     n = _node(args[0])
     old = old_heap(interp)['value']
     return mk_bool(z3.Select(old, n) == FSEM(n, old))
+
+
+def sx_in_set(interp, args, kwargs, node):
+    return mk_bool(z3.Select(cur_heap(interp)['set:' + args[0]], _node(args[1])))
+
+
+def sx_old_in_set(interp, args, kwargs, node):
+    return mk_bool(z3.Select(old_heap(interp)['set:' + args[0]], _node(args[1])))
+
+
+def sx_has_formula(interp, args, kwargs, node):
+    return mk_bool(z3.Select(cur_heap(interp)['formula'], _node(args[0])) != NONE_V)
+
+
+def sx_old_has_formula(interp, args, kwargs, node):
+    return mk_bool(z3.Select(old_heap(interp)['formula'], _node(args[0])) != NONE_V)
+
+
+def sx_same_formula(interp, args, kwargs, node):
+    n = _node(args[0])
+    return mk_bool(z3.Select(cur_heap(interp)['formula'], n) == z3.Select(old_heap(interp)['formula'], n))
+
+
+def sx_is_range(interp, args, kwargs, node):
+    return mk_bool(ISRANGE(_node(args[0])))
 
 
 def sx_in_map(interp, args, kwargs, node):
